@@ -54,8 +54,8 @@ CLAIMED = {
             "Seeded search over arrival histories (bursts, slow refills, idles spanning several clean-up periods, concurrent tasks, wire mode through the real protocol) with every decision compared against an exact token-bucket model without clean-up, plus the window bound over the recorded history. Evidence over the seeds explored, not a proof.",
             "Trusts the simulator's virtual clock (time.monotonic patched) and the reference model; float-vs-exact grey zone of 1e-9 around the threshold."),
     "C15": ("fault_enumeration", "4/C15",
-            "deterministic simulation with fault enumeration: stall injected after every plaintext byte offset (4 request shapes x 3 transport modes) and every ciphertext byte offset of the handshake flights (2 TLS backends) under virtual time, plus seeded timer-vs-data races",
-            "Every stall point of the enumerated space is executed (31402 cases: 18802 stall points plus the 12600 Titan stall points again behind a middleware chain), then seeded runs race the request timer against late data at T-e/T/T+e, slow handlers and middleware up to 5xT, dribbling peers and disconnects; the close deadline, the single 40 response and the absence of a timeout after a complete request are checked.",
+            "deterministic simulation with fault enumeration: stall injected after every plaintext byte offset (6 request shapes, two of them non-ASCII, x 3 transport modes) and every ciphertext byte offset of the handshake flights (2 TLS backends) under virtual time, plus seeded timer-vs-data races",
+            "Every stall point of the enumerated space is executed (32212 cases: 16080 plaintext and 3040 ciphertext stall points, the 12600 Titan stall points again behind an allowing middleware chain and 492 behind a refusing one; a quarter of them from an IPv6 peer), then seeded runs race the request timer against late data at T-e/T/T+e, slow handlers and middleware up to 5xT, dribbling peers and disconnects; the close deadline, the single 40 response and the absence of a timeout after a complete request are checked.",
             "T_handshake = 60 s demanded of both backends; virtual clock; e = 50 ms slack."),
 }
 
